@@ -784,9 +784,9 @@ def judge_exc(ctx, c, rep):
 def gen_avg(rng, big=False):
     T, F, B = rng.randint(1, 8), rng.randint(1, 8), rng.choice([1, 1, 2, 3])
     if big:
-        T, F, B = rng.randint(1, 3), rng.randint(1, 3), rng.choice([127, 129, 130, 257])   # crosses bl_step = 128
+        T, F, B = rng.randint(1, 3), rng.randint(1, 3), rng.choice([129, 130, 257])   # crosses bl_step = 128
     n = T * F * B
-    dens = rng.choice([0.0, 0.2, 0.5, 0.8, 1.0])
+    dens = rng.choice([0.2, 0.5, 0.8]) if big else rng.choice([0.0, 0.2, 0.5, 0.8, 1.0])
     flags = [rng.random() < dens for _ in range(n)]
     if rng.random() < 0.3:
         # force one whole (t, f) neighbourhood flagged so that all-flagged bins occur
@@ -1106,7 +1106,7 @@ def run(ctx):
         plan = [(k, n * 4) for k, n in plan]
     for kind, n in plan:
         cases += [KINDS[kind][0](rng) for _ in range(n)]
-    cases += [gen_avg(rng, big=True) for _ in range(ctx.q(2, 30))]
+    cases += [gen_avg(rng, big=True) for _ in range(ctx.q(5, 40))]
     # at least two Van Vleck reconstructions per run
     cases += [gen_vfw(rng, vv=True) for _ in range(ctx.q(2, 30))]
     bad = evaluate(ctx, cases)
